@@ -932,6 +932,8 @@ def _isinst(ex, v, t):
         return False
     if isinstance(t, ExtV):
         d = t.dotted
+        if d == "builtins.object":
+            return True
         if isinstance(v, Num):
             decl = v.meta.get("pytype_decl")
             if d in ("numbers.Number", "numbers.Real", "numbers.Integral", "builtins.int", "builtins.float"):
@@ -1465,9 +1467,26 @@ def _np_cumsum(ex, args, kwargs, node):
     return r
 
 
+def _signed_target(t):
+    """True for a signed integer dtype argument (np.int64, int, "int32", np.intp, ...), False for an unsigned one, None
+    if it is not an integer dtype or cannot be read"""
+    if isinstance(t, StrV) and t.s:
+        s = t.s
+    elif isinstance(t, ExtV):
+        s = t.dotted.split(".")[-1]
+    else:
+        return None
+    if s.startswith("uint") or s in ("ulong", "ulonglong", "ubyte", "ushort", "uintp"):
+        return False
+    if s.startswith("int") or s in ("long", "longlong", "short", "byte"):
+        return True
+    return None
+
+
 @model("numpy.diff")
 def _np_diff(ex, args, kwargs, node):
     v = _arr(ex, args[0], node)
+    ex.emit("diff", node, operand=v)
     ax = kwargs.get("axis")
     pre = kwargs.get("prepend")
     apd = kwargs.get("append")
@@ -2105,7 +2124,8 @@ def num_method(ex, v: Num, name, args, kwargs, node):
     if name == "astype":
         dt = _dtype_of(args[0]) if args else None
         ex.emit("cast", node, value=v, dtype=dt, how="astype", target=args[0] if args else None)
-        return Num(v.nf, v.shape, dt or v.dtype, v.pytype, cond=v.cond, meta=dict(v.meta))
+        sg = _signed_target(args[0]) if args else None
+        return Num(v.nf, v.shape, dt or v.dtype, v.pytype, cond=v.cond, meta=dict(v.meta, signed=sg) if sg is not None else dict(v.meta))
     if name in ("argmax", "argmin"):
         return EXT["numpy." + name](ex, [v] + list(args), kwargs, node)
     if name in ("any", "all"):
